@@ -61,55 +61,55 @@ TapW(c, o, b) == (o - 1)*c.sw + (b - 1)*c.dw + 1
 
 \* Definition: zero-padded, strided, dilated cross-correlation.
 ConvPre(x, K, c) ==
-  [f \in 1..c.f |-> [oh \in 1..ConvOH(c) |-> [ow \in 1..ConvOW(c) |->
-     SumF([t \in (1..c.c) \X (1..c.kh) \X (1..c.kw) |->
-            K[f][t[1]][t[2]][t[3]] * XP(x, c, t[1], TapH(c, oh, t[2]), TapW(c, ow, t[3]))])]]]
+  TLCEval([f \in 1..c.f |-> TLCEval([oh \in 1..ConvOH(c) |-> TLCEval([ow \in 1..ConvOW(c) |->
+     SumF(TLCEval([t \in (1..c.c) \X (1..c.kh) \X (1..c.kw) |->
+            K[f][t[1]][t[2]][t[3]] * XP(x, c, t[1], TapH(c, oh, t[2]), TapW(c, ow, t[3]))]))])])])
 
 \* Mechanism: kernel gradient (gather over output positions) ...
 ConvBwdK(x, d, c) ==
-  [f \in 1..c.f |-> [ch \in 1..c.c |-> [a \in 1..c.kh |-> [b \in 1..c.kw |->
-     SumF([t \in (1..ConvOH(c)) \X (1..ConvOW(c)) |->
-            d[f][t[1]][t[2]] * XP(x, c, ch, TapH(c, t[1], a), TapW(c, t[2], b))])]]]]
+  TLCEval([f \in 1..c.f |-> TLCEval([ch \in 1..c.c |-> TLCEval([a \in 1..c.kh |-> TLCEval([b \in 1..c.kw |->
+     SumF(TLCEval([t \in (1..ConvOH(c)) \X (1..ConvOW(c)) |->
+            d[f][t[1]][t[2]] * XP(x, c, ch, TapH(c, t[1], a), TapW(c, t[2], b))]))])])])])
 \* ... and input gradient (scatter of delta through the kernel taps, written as a gather).
 ConvBwdX(K, d, c) ==
-  [ch \in 1..c.c |-> [i \in 1..c.h |-> [j \in 1..c.w |->
-     SumF([t \in (1..c.f) \X (1..c.kh) \X (1..c.kw) |->
+  TLCEval([ch \in 1..c.c |-> TLCEval([i \in 1..c.h |-> TLCEval([j \in 1..c.w |->
+     SumF(TLCEval([t \in (1..c.f) \X (1..c.kh) \X (1..c.kw) |->
             \* output position (oh, ow) that reads x[ch][i][j] through tap (a, b) = (t[2], t[3]), if any
             LET ti == i + c.ph - 1 - (t[2] - 1)*c.dh
                 tj == j + c.pw - 1 - (t[3] - 1)*c.dw
             IN IF ti >= 0 /\ tj >= 0 /\ ti % c.sh = 0 /\ tj % c.sw = 0
                   /\ (ti \div c.sh) + 1 <= ConvOH(c) /\ (tj \div c.sw) + 1 <= ConvOW(c)
-                 THEN d[t[1]][(ti \div c.sh) + 1][(tj \div c.sw) + 1] * K[t[1]][ch][t[2]][t[3]] ELSE 0])]]]
+                 THEN d[t[1]][(ti \div c.sh) + 1][(tj \div c.sw) + 1] * K[t[1]][ch][t[2]][t[3]] ELSE 0]))])])])
 
 \* ---------- deconvolution (transposed convolution cropped by the padding) --------
 \* y[f][o][p] = sum over (ch,i,j,a,b) with (i-1)*sh + a - ph = o and (j-1)*sw + b - pw = p of x*K
 DeconvPre(x, K, c) ==
-  [f \in 1..c.f |-> [o \in 1..DeconvOH(c) |-> [p \in 1..DeconvOW(c) |->
-     SumF([t \in (1..c.c) \X (1..c.h) \X (1..c.w) |->
+  TLCEval([f \in 1..c.f |-> TLCEval([o \in 1..DeconvOH(c) |-> TLCEval([p \in 1..DeconvOW(c) |->
+     SumF(TLCEval([t \in (1..c.c) \X (1..c.h) \X (1..c.w) |->
             LET a == o + c.ph - (t[2] - 1)*c.sh
                 b == p + c.pw - (t[3] - 1)*c.sw
-            IN IF a \in 1..c.kh /\ b \in 1..c.kw THEN x[t[1]][t[2]][t[3]] * K[f][t[1]][a][b] ELSE 0])]]]
+            IN IF a \in 1..c.kh /\ b \in 1..c.kw THEN x[t[1]][t[2]][t[3]] * K[f][t[1]][a][b] ELSE 0]))])])])
 
 DeconvBwdK(x, d, c) ==
-  [f \in 1..c.f |-> [ch \in 1..c.c |-> [a \in 1..c.kh |-> [b \in 1..c.kw |->
-     SumF([t \in (1..c.h) \X (1..c.w) |->
+  TLCEval([f \in 1..c.f |-> TLCEval([ch \in 1..c.c |-> TLCEval([a \in 1..c.kh |-> TLCEval([b \in 1..c.kw |->
+     SumF(TLCEval([t \in (1..c.h) \X (1..c.w) |->
             LET o == (t[1] - 1)*c.sh + a - c.ph
                 p == (t[2] - 1)*c.sw + b - c.pw
-            IN IF o \in 1..DeconvOH(c) /\ p \in 1..DeconvOW(c) THEN d[f][o][p] * x[ch][t[1]][t[2]] ELSE 0])]]]]
+            IN IF o \in 1..DeconvOH(c) /\ p \in 1..DeconvOW(c) THEN d[f][o][p] * x[ch][t[1]][t[2]] ELSE 0]))])])])])
 
 DeconvBwdX(K, d, c) ==
-  [ch \in 1..c.c |-> [i \in 1..c.h |-> [j \in 1..c.w |->
-     SumF([t \in (1..c.f) \X (1..c.kh) \X (1..c.kw) |->
+  TLCEval([ch \in 1..c.c |-> TLCEval([i \in 1..c.h |-> TLCEval([j \in 1..c.w |->
+     SumF(TLCEval([t \in (1..c.f) \X (1..c.kh) \X (1..c.kw) |->
             LET o == (i - 1)*c.sh + t[2] - c.ph
                 p == (j - 1)*c.sw + t[3] - c.pw
-            IN IF o \in 1..DeconvOH(c) /\ p \in 1..DeconvOW(c) THEN d[t[1]][o][p] * K[t[1]][ch][t[2]][t[3]] ELSE 0])]]]
+            IN IF o \in 1..DeconvOH(c) /\ p \in 1..DeconvOW(c) THEN d[t[1]][o][p] * K[t[1]][ch][t[2]][t[3]] ELSE 0]))])])])
 
 \* ---------- max-pool ---------------------------------------------------------------
 Window(c, oh, ow) == {<<(oh - 1)*c.sh + k, (ow - 1)*c.sw + l>> : k \in 1..c.kh, l \in 1..c.kw}
 PoolPre(x, c) ==
-  [ch \in 1..c.c |-> [oh \in 1..PoolOH(c) |-> [ow \in 1..PoolOW(c) |->
+  TLCEval([ch \in 1..c.c |-> TLCEval([oh \in 1..PoolOH(c) |-> TLCEval([ow \in 1..PoolOW(c) |->
      LET W == Window(c, oh, ow)
-     IN  CHOOSE m \in {x[ch][q[1]][q[2]] : q \in W} : \A q \in W : x[ch][q[1]][q[2]] <= m]]]
+     IN  CHOOSE m \in {x[ch][q[1]][q[2]] : q \in W} : \A q \in W : x[ch][q[1]][q[2]] <= m])])])
 \* No window has two equal maxima (the property quantifies away from ties).
 PoolTieFree(x, c) ==
   LET pre == PoolPre(x, c) IN
@@ -118,13 +118,13 @@ PoolTieFree(x, c) ==
 \* Mechanism: the upstream gradient is routed to the position of the maximum.
 PoolBwdX(x, g, c) ==
   LET pre == PoolPre(x, c) IN
-  [ch \in 1..c.c |-> [i \in 1..c.h |-> [j \in 1..c.w |->
-     SumF([t \in (1..PoolOH(c)) \X (1..PoolOW(c)) |->
+  TLCEval([ch \in 1..c.c |-> TLCEval([i \in 1..c.h |-> TLCEval([j \in 1..c.w |->
+     SumF(TLCEval([t \in (1..PoolOH(c)) \X (1..PoolOW(c)) |->
             IF i - (t[1] - 1)*c.sh \in 1..c.kh /\ j - (t[2] - 1)*c.sw \in 1..c.kw /\ x[ch][i][j] = pre[ch][t[1]][t[2]]
-              THEN g[ch][t[1]][t[2]] ELSE 0])]]]
+              THEN g[ch][t[1]][t[2]] ELSE 0]))])])])
 
 \* ---------- dense -------------------------------------------------------------------
-DensePre(x, W, b) == [i \in 1..Len(W) |-> SumF([j \in 1..Len(x) |-> W[i][j] * x[j]]) + b[i]]
+DensePre(x, W, b) == TLCEval([i \in 1..Len(W) |-> SumF(TLCEval([j \in 1..Len(x) |-> W[i][j] * x[j]])) + b[i]])
 DenseBwdW(x, d) == Outer(d, x)
 DenseBwdX(W, d) == Dot(Transpose(W), d)
 
@@ -157,6 +157,6 @@ BwdB(c, pre, g) == IF c.kind = "dense" THEN Delta(c, pre, g) ELSE <<>>
 
 \* <g, y> for nested sequences of the layer's output rank
 Inner(rank, g, y) ==
-  LET a == FlatR(rank, g) b == FlatR(rank, y) IN SumF([i \in 1..Len(a) |-> a[i] * b[i]])
+  LET a == FlatR(rank, g) b == FlatR(rank, y) IN SumF(TLCEval([i \in 1..Len(a) |-> a[i] * b[i]]))
 
 =============================================================================
